@@ -51,6 +51,13 @@ def check_layouts(ctx):
             fields.append(st)
     shape.match_stmts(ctx, "R12.1", CQ + ".CQMap.__init__:fields", fields,
                       ["self._dom = dom", "self._cod = cod", "self._udom = udom", "self._ucod = ucod"], mod=CQ, node=fn, sig="init-fields", required="dom / cod are the CQ types given, _udom / _ucod their doubled layouts")
+    ci = m.func(CQ + ".CQ.__init__")
+    ctx.analysed(CQ + ".CQ.__init__")
+    a_ = [x.arg for x in ci.args.args]
+    shape.match_stmts(ctx, "R12.1", CQ + ".CQ.__init__", [s for s in shape.expand_tuple_assigns(ci.body) if isinstance(s, (ast.Assign, ast.Expr)) and not (isinstance(s, ast.Expr) and isinstance(s.value, ast.Constant))],
+                      ["self.classical = classical", "self.quantum = quantum", "types = [Ob('C({})'.format(dim)) for dim in classical] + [Ob('Q({})'.format(dim)) for dim in quantum]", "super().__init__(*types)"],
+                      dict(zip(a_[1:], ("classical", "quantum"))), mod=CQ, node=ci, sig="cq-init", exact=True,
+                      required="a classical-quantum type keeps its two parts and is, as a type, one object per classical dimension followed by one per quantum dimension (what == and the composition guards compare)")
     ad = m.func(CQ + ".CQMap.__add__")
     ctx.analysed(CQ + ".CQMap.__add__")
     shape.match(ctx, "R12.1", CQ + ".CQMap.__add__", ret_expr(ad.body[-1:]), "CQMap(self.dom, self.cod, self.array + other.array)", {ad.args.args[1].arg: "other"}, mod=CQ, node=ad, sig="cq-add",
